@@ -1290,7 +1290,7 @@ def window_riemann(N):
     .. seealso:: :func:`create_window`, :class:`Window`
     """
     n = linspace(-N / 2.0, (N) / 2.0, N)
-    w = sin(n / float(N) * 2.0 * pi) / (n / float(N) * 2.0 * pi)
+    w = sinc(2.0 * n / float(N))
     return w
 
 
